@@ -421,7 +421,7 @@ func init() {
 			"the whole-document tree is loaded by the same reader with target '.', so node construction itself is C08's subject, not C04's",
 			"xpaths are of the property's class: predicates only on the final step and only about the candidate itself",
 		},
-		BudgetQuick: 200, BudgetThorough: 1700,
+		BudgetQuick: 200, BudgetThorough: 2400,
 		Run: func(c *core.Ctx) {
 			full := c04XMLAlpha{names: []string{"a", "b"}, attrs: []string{"", "1"}, lead: []string{"", "1", "2"}, trail: []string{"", " "}}
 			red := c04XMLAlpha{names: []string{"a", "b"}, attrs: []string{"", "1"}, lead: []string{"", "1"}, trail: []string{""}}
@@ -434,9 +434,12 @@ func init() {
 			misc := c04XMLAlpha{names: []string{"a", "b"}, attrs: []string{"", "1"}, lead: []string{"", "<!--c-->1", "<![CDATA[1]]>", "<?p x?>2", "\n"}, trail: []string{"", "<!--c-->", "<![CDATA[ ]]>", "\n"}}
 			xplans := []xplan{{1, full, true}, {2, full, true}, {3, full, true}, {4, red, true}, {1, full, false}, {2, full, false}, {3, full, false}, {1, misc, false}, {2, misc, false}, {2, misc, true}}
 			jmax := 4
+			var xtail []xplan
 			if !c.Quick() {
-				xplans = []xplan{{1, full, true}, {2, full, true}, {3, full, true}, {4, full, true}, {5, red, true},
+				xplans = []xplan{{1, full, true}, {2, full, true}, {3, full, true}, {4, red, true},
 					{1, full, false}, {2, full, false}, {3, full, false}, {4, red, false}, {1, misc, false}, {2, misc, false}, {3, misc, false}, {3, misc, true}}
+				// the two big plans come after everything else, so that running out of time costs nothing else
+				xtail = []xplan{{5, red, true}, {4, full, true}}
 				jmax = 5
 			}
 			idx := 0
@@ -530,6 +533,25 @@ func init() {
 				if stop {
 					return
 				}
+			}
+			c.Note("all plans but the two largest XML plans completed")
+			for _, pl := range xtail {
+				stop := false
+				xx := xbase
+				if pl.n <= extMaxN {
+					xx = append(append([]c04XPath{}, xbase...), xext...)
+				}
+				c04XMLDocs(pl.n, 4, pl.al, pl.ids, func(doc string) bool {
+					if !run("xml", doc, xx) {
+						stop = true
+						return false
+					}
+					return true
+				})
+				if stop {
+					return
+				}
+				c.Note(fmt.Sprintf("XML plan with %d elements completed", pl.n))
 			}
 		},
 		Replay: func(raw json.RawMessage) (string, string) {
